@@ -323,7 +323,7 @@ def check(tier: str) -> int:
     plans = [("MC_Sites", "sites", {}, 2, 3, True), ("MC_Scopes", "scopes", {}, 2, 2, True), ("MC_Flow", "flow", {}, 1, 2, False),
              ("MC_Loops", "loops-single", {"Variant": '"single"'}, 1, 1, False), ("MC_Loops", "loops-nest", {"Variant": '"nest"'}, 2, 2, False),
              ("MC_Exprs", "exprs", {}, 1, 2, True), ("MC_Lambda", "lambda", {}, 4, 4, False), ("MC_Undef", "undef", {"Variant": '"single"'}, 1, 1, False),
-             ("MC_Bool", "bool", {"Variant": '"ops"'}, 1, 1, False)]
+             ("MC_Bool", "bool", {"Variant": '"ops"'}, 1, 1, False), ("MC_Static", "static", {}, 3, 3, True)]
     for module, name, consts, q, t, analyze in plans:
         r = gen.run_focus(chk, module, name, max_top=t if tier == "thorough" else q, extra_constants=consts,
                           export="ExportInputs", invariants=(), timeout=6000)
